@@ -12,7 +12,7 @@ use locspan::Meta;
 use sophia_api::ns::rdf;
 use sophia_api::quad::Quad;
 use sophia_api::source::{QuadSource, SinkError, StreamResult};
-use sophia_api::term::{Term, TermKind, TryFromTerm};
+use sophia_api::term::{LanguageTag, Term, TermKind, TryFromTerm};
 use std::collections::{HashMap, HashSet};
 
 /// JSON-LD serializer engine
@@ -154,7 +154,8 @@ impl<'a, L> Engine<'a, L> {
         // check that candidate compound literals are indeed compound literels
         if self.options.rdf_direction() == Some(RdfDirection::CompoundLiteral) {
             let mut compound_literals = std::mem::take(&mut self.compound_literals);
-            compound_literals.retain(|is| is_compound_literal(&self.node[*is]));
+            compound_literals
+                .retain(|is| is_compound_literal(&self.node[*is]) && self.is_referenced_once(*is));
             self.compound_literals = compound_literals;
         }
 
@@ -164,6 +165,18 @@ impl<'a, L> Engine<'a, L> {
             .filter_map(|(inode, node)| self.jsonify(inode, node, true).transpose())
             .collect::<Result<Vec<_>, _>>()
             .map(Into::into)
+    }
+
+    /// Check that this bnode appears in only one graph,
+    /// where it is used exactly once as an object
+    /// (so that replacing that reference with an anonymous value will not break anything).
+    fn is_referenced_once(&self, inode: usize) -> bool {
+        let (g_id, s_id) = &self.gs_id[inode];
+        self.bnode_graphs.get(s_id) == Some(&1)
+            && matches!(
+                self.unique_parent.get(s_id),
+                Some(Some((iparent, _))) if &self.gs_id[*iparent].0 == g_id
+            )
     }
 
     /// If this node is a bnode with only 1 rdf:value & 1 rdf:rest),
@@ -452,20 +465,32 @@ fn is_list_node(node: &HashMap<Box<str>, Vec<RdfObject>>) -> bool {
             .is_some_and(|v| v.len() == 1 && v[0].is_node())
 }
 
-// check if node is a compound literal
+// check if node is a compound literal,
+// i.e. exactly what a value object with '@direction' is converted to
 fn is_compound_literal(node: &HashMap<Box<str>, Vec<RdfObject>>) -> bool {
     2 <= node.len()
         && node.len() <= 3
         && node
             .get(RDF_DIRECTION)
-            .is_some_and(|v| v.len() == 1 && v[0].is_literal())
+            .is_some_and(|v| v.len() == 1 && v[0].is_plain_string() && is_direction(v[0].as_str()))
         && node
             .get(RDF_VALUE)
-            .is_some_and(|v| v.len() == 1 && v[0].is_literal())
+            .is_some_and(|v| v.len() == 1 && v[0].is_plain_string())
         && (node.len() == 2
-            || node
-                .get(RDF_LANGUAGE)
-                .is_some_and(|v| v.len() == 1 && v[0].is_literal()))
+            || node.get(RDF_LANGUAGE).is_some_and(|v| {
+                v.len() == 1 && v[0].is_plain_string() && is_normalized_language(v[0].as_str())
+            }))
+}
+
+// check that txt is a valid value for '@direction'
+fn is_direction(txt: &str) -> bool {
+    txt == "ltr" || txt == "rtl"
+}
+
+// check that txt is a language tag, in the form produced when converting '@language' to RDF
+// with the 'rdfDirection' option (i.e. lowercase)
+fn is_normalized_language(txt: &str) -> bool {
+    LanguageTag::new(txt).is_ok() && !txt.bytes().any(|b| b.is_ascii_uppercase())
 }
 
 const NS_18N: &str = "https://www.w3.org/ns/i18n#";
